@@ -38,13 +38,17 @@ OutCases ==
   \cup {OutCase("int", "int", "none", x, FALSE, ct) : x \in IntVals, ct \in BOOLEAN}
   \cup {OutCase("enum", "str", "none", x, FALSE, ct) : x \in StrVals, ct \in BOOLEAN}
   \* explicit, stricter schema on the Go type OutS whose inferred schema may sit in the same SchemaCache
-  \cup {OutCase("outsx", "structx", ch, x, FALSE, ct) : x \in OutSVals \cup {BigOutS}, ch \in Caches, ct \in BOOLEAN}
+  \cup {OutCase("outsx", "structx", ch, x, FALSE, ct) : x \in OutSVals \cup {BigOutS}, ch \in OutCaches, ct \in BOOLEAN}
   \* reflected schema
-  \cup {OutCase("reflect", k, ch, x, FALSE, ct) : k \in {"struct", "ptr"}, x \in OutSVals \cup {BigOutS}, ch \in Caches, ct \in BOOLEAN}
-  \cup {OutCase("reflect", "ptr", ch, ZeroOutS, TRUE, ct) : ch \in WarmNone, ct \in BOOLEAN}
+  \cup {OutCase("reflect", k, ch, x, FALSE, ct) : k \in {"struct", "ptr"}, x \in OutSVals \cup {BigOutS}, ch \in OutCaches, ct \in BOOLEAN}
+  \* Out is a pointer type and the handler returns nil, in every arrangement of how the tool came by its schema
+  \* (reflected / cache hit after an earlier registration / hit through the element-type sibling / filling the cache)
+  \cup {OutCase("reflect", "ptr", ch, ZeroOutS, TRUE, ct) : ch \in OutCaches, ct \in BOOLEAN}
+  \cup {OutCase("reflect", "pint", ch, JInt(0), TRUE, ct) : ch \in OutCaches, ct \in BOOLEAN}
+  \cup {OutCase("reflect", "pint", ch, x, FALSE, ct) : x \in {JInt(0), JInt(7)}, ch \in OutCaches, ct \in BOOLEAN}
   \cup {OutCase("reflect", "strs", ch, x, x[1] = "null", ct) :
           x \in {JNull, JArr(<<>>), JArr(<<JStr("x"), JStr("y")>>)}, ch \in WarmNone, ct \in BOOLEAN}
-  \cup {OutCase("reflect", "rint", ch, x, FALSE, ct) : x \in {JInt(0), JInt(7)}, ch \in WarmNone, ct \in BOOLEAN}
+  \cup {OutCase("reflect", "rint", ch, x, FALSE, ct) : x \in {JInt(0), JInt(7)}, ch \in OutCaches, ct \in BOOLEAN}
   \cup {OutCase("reflect", "rstr", ch, x, FALSE, ct) : x \in {JStr(""), JStr("a")}, ch \in WarmNone, ct \in BOOLEAN}
   \cup {OutCase("reflect", "rbool", ch, JBool(b), FALSE, ct) : b \in BOOLEAN, ch \in WarmNone, ct \in BOOLEAN}
 
@@ -85,6 +89,14 @@ Witnesses ==
   \* valid under the inferred schema of the Go type, invalid under the explicit one
   /\ \E c \in SInCases : ~ValidIn(c) /\ Valid(InCInferred, c.args)
   /\ \E c \in OutCases : c.sid = "outsx" /\ ~OutOk(c) /\ Valid(GoOutSchema("struct"), c.out)
+  \* a nil pointer output that must be returned (as the zero value of the element type), for every pointer
+  \* Out type and every arrangement of the SchemaCache; and its raw JSON form (null) would not be valid
+  /\ \A k \in PtrKinds, ch \in OutCaches :
+        \E c \in OutCases : c.sid = "reflect" /\ c.okind = k /\ c.cache = ch /\ c.nilform /\ OutOk(c)
+                              /\ ~Valid(CaseOutSchema(c), JNull)
+  \* ValidOutputReturned and BadOutputIsError both bind in every arrangement
+  /\ \A ch \in OutCaches : (\E c1 \in OutCases : c1.cache = ch /\ OutOk(c1))
+                            /\ (\E c2 \in OutCases : c2.cache = ch /\ ~OutOk(c2))
 
 -----------------------------------------------------------------------------
 (* export *)
